@@ -5,22 +5,10 @@ C13: the file leaves of a traversal as a flat list, and the refinement
 `content_preserved`.
 -/
 import Martian.PostProcess
+import Martian.PostProcessDefs
 import Proofs.PostProcess
 
 namespace Martian.PostProcess
-
-/-- one call `moveOutFile ps outs name v` -/
-structure Leaf where
-  v : J
-  outs : Path
-  name : String
-
-/-- the destination path derived for the leaf -/
-def Leaf.dest (l : Leaf) : Path := l.outs ++ [l.name]
-
-def runLeaf (ps : Path) (fs : FS) (l : Leaf) : FS := (moveOutFile ps l.outs l.name l.v fs).2
-
-def runLeaves (ps : Path) (ls : List Leaf) (fs : FS) : FS := ls.foldl (runLeaf ps) fs
 
 theorem runLeaves_append (ps : Path) (a b : List Leaf) (fs : FS) :
     runLeaves ps (a ++ b) fs = runLeaves ps b (runLeaves ps a fs) := by
@@ -30,87 +18,6 @@ theorem runLeaves_nil (ps : Path) (fs : FS) : runLeaves ps [] fs = fs := rfl
 
 theorem runLeaves_cons (ps : Path) (l : Leaf) (ls : List Leaf) (fs : FS) :
     runLeaves ps (l :: ls) fs = runLeaves ps ls (runLeaf ps fs l) := rfl
-
-abbrev LeafFn := String → String → J → Path → List Leaf
-
-def leavesIdx (g : Nat → J → List Leaf) : Nat → List J → List Leaf
-  | _, [] => []
-  | i, x :: xs => g i x ++ leavesIdx g (i + 1) xs
-
-def leavesKeys (g : String → List Leaf) : List String → List Leaf
-  | [] => []
-  | k :: ks => g k ++ leavesKeys g ks
-
-/-- an inner array of a multi-dimensional array: its own sub-directory `o/<index>` -/
-def arrElemLeaves (sub : J → Path → List Leaf) (o : Path) (w i : Nat) (x : J) : List Leaf :=
-  match x with
-  | .null => []
-  | _ => sub x (o ++ [pad w i])
-
-def arrLeaves (g : LeafFn) : Nat → J → Path → List Leaf
-  | 0, .arr xs, o => leavesIdx (fun i x => g (pad (width xs.length) i) "" x o) 0 xs
-  | k + 1, .arr xs, o => leavesIdx (arrElemLeaves (arrLeaves g k) o (width xs.length)) 0 xs
-  | _, _, _ => []
-
-def mapLeaves (g : LeafFn) (v : J) (o : Path) : List Leaf :=
-  match v with
-  | .obj kvs =>
-    leavesKeys (fun k => g k "" ((lookupLast kvs k).getD .null) o)
-      (sortStrings (dedup ((kvs.map Prod.fst).filter legalName)))
-  | _ => []
-
-abbrev MemberLeaves := List (String × (J → Path → List Leaf))
-
-def memberLeaves (gs : MemberLeaves) (k : String) : J → Path → List Leaf :=
-  match gs with
-  | [] => fun _ _ => []
-  | (k', g) :: r => if k' = k then g else memberLeaves r k
-
-def structLeaves (gs : MemberLeaves) (v : J) (o : Path) : List Leaf :=
-  match v with
-  | .obj [] => []
-  | .obj kvs =>
-    leavesKeys (fun k => memberLeaves gs k ((lookupLast kvs k).getD .null) o)
-      (sortStrings (gs.map Prod.fst))
-  | _ => []
-
-mutual
-/-- the `moveOutFile` calls of `handler true ps ty`, in order -/
-def leavesOf : Ty → LeafFn
-  | .scalar => fun _ _ _ _ => []
-  | .file ext => fun id on v outs =>
-    match v with
-    | .null => []
-    | _ => [⟨v, outs, outFilename (.file ext) id on⟩]
-  | .arr e k => fun id on v outs =>
-    if !hasFile e then [] else
-    match v with
-    | .null => []
-    | _ => arrLeaves (leavesOf e) k v (outs ++ [outFilename (.arr e k) id on])
-  | .tmap e => fun id on v outs =>
-    if !hasFile e then [] else
-    match v with
-    | .null => []
-    | _ => mapLeaves (leavesOf e) v (outs ++ [outFilename (.tmap e) id on])
-  | .struct ms => fun id on v outs =>
-    if !hasFileMs ms then [] else
-    match v with
-    | .null => []
-    | _ => structLeaves (leavesMs ms) v (outs ++ [outFilename (.struct ms) id on])
-def leavesMs : List (String × String × Ty) → MemberLeaves
-  | [] => []
-  | (id, on, t) :: ms => (id, leavesOf t id on) :: leavesMs ms
-end
-
-/-- the leaves of a whole record (`handleOuts`) -/
-def leavesRec (params : List (String × String × Ty)) (outs : List (String × J)) (outsPath : Path) :
-    List Leaf :=
-  match params with
-  | [] => []
-  | (id, on, ty) :: rest =>
-    match lookupLast outs id with
-    | none => leavesRec rest outs outsPath
-    | some v => leavesOf ty id on v outsPath ++ leavesRec rest outs outsPath
 
 /-! ## refinement -/
 
